@@ -8,7 +8,17 @@
    - the consumer's arguments are the reference's (the selected case's value) -- C03 on frames;
    - the outcome is the reference's: a label without a case ends the run with SwitchCaseDoesNotHaveBranchError, and the run never
      deadlocks (C02).
-   FALSE in general (known findings D11, D12). The fragment theorem over all switch programs is not proved. *)
+   Kind G (ALL programs -- switches anywhere, nested, inside candidates or recurrent subgraphs; any bodies, collaborators, order
+   oracles --, EVERY schedule incl. cancellation; Proofs/SwitchAll.v, Proofs/ArgsAll.v):
+     - C09_recorded_case_follows_the_label: whenever a case is recorded for a switch, it is the case the table of the switch
+       gives for the recorded label (so: a label of a declared case; with duplicate labels the last declared, as the engine's
+       dict), and that label is a value the decision node of the switch stored as its result in this run;
+     - C09_consumer_receives_the_recorded_case: every body invocation gets, for a parameter bound to a switch, a value that was
+       stored as the result of the case recorded for that switch (or None when that case has no result) -- and for every other
+       parameter a value stored for the declared source.
+   What these do NOT say: that the label is the decision node's value of the CURRENT iteration, and that non-selected cases are
+   not executed on re-iteration (both false in general: known finding D12; kind E / correspondence elsewhere).
+   FALSE in general: the full statement (known findings D11, D12). *)
 From MLPE Require Import Engine.Run Spec.Dataflow Proofs.ExecLemmas Explore.StateEq Explore.Erase Explore.Explorer Explore.Safe
      Catalogue.Programs Catalogue.Certified Proofs.CertLemmas.
 
@@ -48,3 +58,36 @@ Proof.
   - destruct e as [c i a|ee k|k|k|]; cbn in H; try discriminate. destruct ee; try discriminate. eauto.
 Qed.
 Print Assumptions C09_unknown_label_fails_the_run.
+
+(* ---- kind G: all programs, all schedules ------------------------------------------------------------------------------------ *)
+From MLPE Require Import Proofs.Micro Proofs.SwitchAll Proofs.ArgsAll.
+
+(* [get_switch n s]: the (label, case) the engine has recorded for switch n (_add_case_result); [switch_case_for P n lbl]: the case
+   declared with label lbl; [switch_decider P n]: the decision node of n *)
+Theorem C09_recorded_case_follows_the_label :
+  forall P st, reachable P st ->
+    forall n lbl c, get_switch n (st_store st) = Some (lbl, c) ->
+      switch_case_for P n lbl = Some c /\ exists dn, switch_decider P n = Some dn /\ In (OSetResult dn lbl) (st_trace st).
+Proof. exact switch_selection_follows_the_case_table_all_programs. Qed.
+Print Assumptions C09_recorded_case_follows_the_label.
+
+(* [gen_kwargs P n val ad]: the keyword arguments built for node n from the values [val p] of its declared sources p;
+   [prov P b p v]: in the history b (what happened before the invocation) v was stored as the result of p or, when p is a switch,
+   as the result of the case c recorded for p with a label lbl such that (p, lbl, c) is as in the theorem above *)
+Theorem C09_consumer_receives_the_recorded_case :
+  forall P st, reachable P st ->
+    forall a b i k kw, st_trace st = a ++ OStart i k kw :: b ->
+      exists n val ad, real_index n = i /\ gen_kwargs P n val ad = Some kw /\ forall p v, val p = Some v -> prov P b p v.
+Proof. exact arguments_come_from_the_declared_inputs_all_programs. Qed.
+Print Assumptions C09_consumer_receives_the_recorded_case.
+
+(* the premises occur: a complete run of the catalogue switch records the case labelled 2 = the decision node's value, and the
+   consumer (node 4) is invoked with that case's value *)
+Example C09_events_occur :
+  let P := cat_switch in
+  let st := run_sched P [AQuiesce; AGate (GBody 0 0); AQuiesce; AGate (GBody 1 0); AQuiesce; AGate (GBody 2 0); AQuiesce; AGate (GBody 4 0); AQuiesce] in
+  get_switch (KSw 4 0) (st_store st) = Some (VStr 2, KN 2) /\
+  switch_decider P (KSw 4 0) = Some (KN 1) /\
+  existsb (fun o => match o with OStart 4 _ _ => true | _ => false end) (st_trace st) = true /\
+  is_switch (b_graph (build (p_decls P) (p_inp P) (p_out P))) (KSw 4 0) = true.
+Proof. vm_compute. repeat split; reflexivity. Qed.
